@@ -9,6 +9,7 @@ import (
 	secp256k1 "github.com/bytemare/secp256k1"
 	"github.com/bytemare/secp256k1/internal/verif/conc"
 	"github.com/bytemare/secp256k1/internal/verif/ev"
+	"github.com/bytemare/secp256k1/internal/verif/prelude"
 	"github.com/bytemare/secp256k1/internal/verif/verifrt"
 )
 
@@ -149,6 +150,10 @@ func (r *runner) verdict(e *Exec) (key, detail string) {
 		return "concurrent/panic", fmt.Sprint(p)
 	}
 
+	if e.Deadlock {
+		return "concurrent/deadlock", "every live thread waits for a lock, wait group or condition that no thread can release any more"
+	}
+
 	for t := range r.sc {
 		if !bytes.Equal(r.results[t], r.expected[t]) {
 			return "concurrent/result-differs-from-running-alone", fmt.Sprintf("thread %d: got %x want %x", t, r.results[t], r.expected[t])
@@ -164,6 +169,14 @@ func (r *runner) verdict(e *Exec) (key, detail string) {
 	}
 
 	return "", ""
+}
+
+func clipStr(s string) string {
+	if len(s) > 300 {
+		return s[:300] + "..."
+	}
+
+	return s
 }
 
 func planString(plan []Decision) string {
@@ -193,6 +206,10 @@ func parsePlan(s string) []Decision {
 
 // exploreScenario explores one scenario and reports into r.
 func exploreScenario(rep *ev.Report, sc Scenario, bound int, rootOnly bool) {
+	if stuck {
+		return
+	}
+
 	run := newRunner(sc)
 	outcomes := map[string]bool{}
 	gran := granularity(rootOnly)
@@ -216,6 +233,16 @@ func exploreScenario(rep *ev.Report, sc Scenario, bound int, rootOnly bool) {
 				key2, _ := run.verdict(e2)
 
 				if e2.h != h || key2 != key || fmt.Sprintf("%x", run.results) != fmt.Sprintf("%x", first) {
+					// State that the package keeps between calls is nondeterminism the library owns, not the harness:
+					// when the package-level variables differ from their initial rendering, the differing replay is the
+					// consequence of exactly what the property forbids ("the package keeps no mutable global state").
+					if g := secp256k1.VerifAllGlobals(); g != run.globals0 || (prelude.Baseline != "" && g != prelude.Baseline) {
+						rep.Violation("concurrent/package-level-state-changed", fmt.Sprintf("scenario %s, schedule [%s]: executing the same schedule twice gives different observations, and the package-level variables differ from their initial values: %s", sc, planString(plan), clipStr(g)),
+							Case{"op": "schedule", "scenario": sc.Encode(), "names": sc.String(), "plan": planString(plan), "granularity": map[bool]string{true: "G1", false: "G2"}[rootOnly]})
+
+						return true
+					}
+
 					rep.ToolError("schedule %q of scenario %q is not reproducible (unowned nondeterminism)", planString(plan), sc)
 					return true
 				}
@@ -238,8 +265,22 @@ func exploreScenario(rep *ev.Report, sc Scenario, bound int, rootOnly bool) {
 	x.Explore()
 
 	if x.ToolErr != "" {
-		rep.ToolError("%s (scenario %s)", x.ToolErr, sc)
+		if g := secp256k1.VerifAllGlobals(); g != run.globals0 || (prelude.Baseline != "" && g != prelude.Baseline) {
+			// see above: a prefix that does not replay identically because the package keeps state between calls
+			rep.Violation("concurrent/package-level-state-changed", fmt.Sprintf("scenario %s: %s, and the package-level variables differ from their initial values: %s", sc, x.ToolErr, clipStr(g)),
+				Case{"op": "schedule", "scenario": sc.Encode(), "names": sc.String(), "plan": "", "granularity": map[bool]string{true: "G1", false: "G2"}[rootOnly]})
+		} else {
+			rep.ToolError("%s (scenario %s)", x.ToolErr, sc)
+		}
 	}
+
+	if x.Stuck {
+		stuck = true
+		rep.Incomplete(fmt.Sprintf("an execution of scenario %s made no progress for %v: the tree blocks in a way the cooperative scheduler does not own (channel operation, spin loop on plain memory, ...); the scheduler exploration was abandoned - the race pass, footprint and watch parts still decide", sc, StuckAfter))
+	}
+
+	rep.Count("goroutines_started_by_the_library", x.Spawned)
+	rep.Count("library_synchronisation_operations", x.SyncOps)
 
 	if x.Stopped && rep.Expired() {
 		rep.Incomplete("wall-clock guard during scenario " + sc.String())
@@ -260,6 +301,9 @@ func exploreScenario(rep *ev.Report, sc Scenario, bound int, rootOnly bool) {
 		rep.Distinct.Add(1)
 	}
 }
+
+// stuck is set once an execution hung (see Explorer.Stuck): no further scenario is explored in this process.
+var stuck bool
 
 func inSub(sc Scenario, sub []int) bool {
 	for _, th := range sc {
@@ -319,7 +363,7 @@ func C16sched(rep *ev.Report) {
 	}
 
 	boundShort, boundLong := 2, 1
-	rep.Rule("cooperative scheduler over the instrumented build, scheduling point = function entry (G2: all three packages, for operations with <= 400 entries; G1: root package only, when a long operation - Multiply, hashing to the group, decoding - takes part); scenarios = all ordered pairs of the concurrency alphabet (2 threads x 1 operation) on shared arguments incl. overlapping DST slices with spare capacity, plus 3 threads x 1 and 2 threads x 2 operations on a sub-alphabet; for every scenario ALL schedules within the preemption bound are executed: short operations G2 with <= 2 preemptions (thorough: <= 3 on the sub-alphabet), medium operations (up to 4000 entries) G1 with <= 2 preemptions (thorough: additionally G2 with <= 1), huge operations and 3-thread / 2-operation scenarios <= 1 preemption; oracle per schedule: every thread's result equals the result of the same calls run alone, shared arguments bit-identical, package-level variables unchanged; every violating schedule and a sample of the others are replayed and must reproduce; prefix replay divergence is a tool error; non-trivial = scenarios with more than one schedule")
+	rep.Rule("cooperative scheduler over the instrumented build, scheduling point = function entry and every synchronisation operation of the library (its imports of sync and sync/atomic and its go statements are redirected to shims: lock, unlock, once, wait group, pool, atomic load/store/CAS, spawn; a thread that cannot proceed is suspended and re-polled after another thread changed synchronisation state; goroutines started by the library are threads of the execution; all live threads waiting = deadlock, reported) (G2: all three packages, for operations with <= 400 entries; G1: root package only, when a long operation - Multiply, hashing to the group, decoding - takes part); scenarios = all ordered pairs of the concurrency alphabet (2 threads x 1 operation) on shared arguments incl. overlapping DST slices with spare capacity, plus 3 threads x 1 and 2 threads x 2 operations on a sub-alphabet; for every scenario ALL schedules within the preemption bound are executed: short operations G2 with <= 2 preemptions (thorough: <= 3 on the sub-alphabet), medium operations (up to 4000 entries) G1 with <= 2 preemptions (thorough: additionally G2 with <= 1), huge operations and 3-thread / 2-operation scenarios <= 1 preemption; oracle per schedule: every thread's result equals the result of the same calls run alone, shared arguments bit-identical, package-level variables unchanged; every violating schedule and a sample of the others are replayed and must reproduce; prefix replay divergence is a tool error; non-trivial = scenarios with more than one schedule")
 	rep.Bound("preemption_bound_G2", boundShort)
 	rep.Bound("preemption_bound_G1", boundLong)
 	rep.Bound("alphabet", len(conc.Ops))
@@ -406,7 +450,7 @@ func C16sched(rep *ev.Report) {
 			}
 		}
 
-		if rep.Expired() {
+		if rep.Expired() || stuck {
 			break
 		}
 	}
